@@ -517,6 +517,28 @@ func main() {
 	writeIfChanged(dst, b)
 	ov.Replace[filepath.Join(goroot, "src/runtime/verif.go")] = dst
 
+	// 5. directory listing order (package os): whole-directory reads are permuted under VerifDirMode
+	dp, err := os.ReadFile(filepath.Join(goroot, "src/os/dir.go"))
+	must(err)
+	for _, pr := range [][2]string{
+		{"_, _, infos, err := f.readdir(n, readdirFileInfo)", "if n <= 0 {\n\t\tverifPermute(infos)\n\t}"},
+		{"names, _, _, err = f.readdir(n, readdirName)", "if n <= 0 {\n\t\tverifPermute(names)\n\t}"},
+		{"_, dirents, _, err := f.readdir(n, readdirDirEntry)", "if n <= 0 {\n\t\tverifPermute(dirents)\n\t}"},
+	} {
+		if bytes.Count(dp, []byte(pr[0])) != 1 {
+			must(fmt.Errorf("os/dir.go: expected exactly one %q", pr[0]))
+		}
+		dp = bytes.Replace(dp, []byte(pr[0]), []byte(pr[0]+"\n\t"+pr[1]), 1)
+	}
+	dst = filepath.Join(out, "goos/dir.go")
+	writeIfChanged(dst, dp)
+	ov.Replace[filepath.Join(goroot, "src/os/dir.go")] = dst
+	b, err = os.ReadFile(home + "/overlay/os/verif.go.txt")
+	must(err)
+	dst = filepath.Join(out, "goos/verif.go")
+	writeIfChanged(dst, b)
+	ov.Replace[filepath.Join(goroot, "src/os/verif.go")] = dst
+
 	jb, _ := json.MarshalIndent(ov, "", " ")
 	writeIfChanged(buildDir+"/overlay.json", jb)
 	fmt.Printf("vinstr: %d files; go=%d (telemetry dropped %d) send=%d recv=%d close=%d select=%d chan-range=%d recover=%d numcpu=%d clock=%d sync-imports=%d shared-methods=%d (writers %d)\n",
